@@ -120,7 +120,7 @@ def framing_part(ck, rnd, scale):
 
 def run(ck):
     vlib.import_repo()
-    ck.build(["framing", "brokerclient", "brokerclienthook"])
+    ck.build(["framing", "brokerclient", "brokerclienthook", "brokerclientwrite"])
     ck.props()
     rnd = random.Random(ck.seed)
     thorough = ck.tier == "thorough"
@@ -144,7 +144,10 @@ def run(ck):
     L.reentrant_part(ck, rnd, 500 * scale, THEOREMS_BC)
     L.tree_part(ck, rnd, 400 * scale, ["C06_exactly_once_reentrant", "C06_nothing_after_fired_reentrant"])
 
-    # ---- sendString raising (brokerclient.py:370-373): outside the model, probed on the real code
+    # ---- sendString raising inside _sendRequest: Model/BrokerClientWrite.v
+    L.write_part(ck, rnd, 400 * scale, ["C06_exactly_once_write_failure", "C06_write_failure_local"])
+
+    # ---- sendString raising (brokerclient.py:370-373): one more fixed probe on the real code
     sr = L.probe_send_raises()
     ck.cov["send_raises_probe"] = sr or "as expected: entry dropped, Deferred failed once with the exception, id free again, close() works"
     if sr:
@@ -176,8 +179,8 @@ def run(ck):
     ck.assumptions += [
         "hand-written Gallina models: Model/Framing.v stands for twisted.protocols.basic.IntNStringReceiver.dataReceived/sendString as configured by afkak/_protocol.py:32-60, KafkaBootstrapProtocol (_protocol.py:63-140) and KafkaCodec.get_response_correlation_id; Model/BrokerClient.v for afkak/brokerclient.py:44-79,148-462. The tie is this run's differential correspondence, not a proof",
         "Twisted (Deferred fire-once/cancel semantics, Clock, IntNStringReceiver) is exercised by the correspondence, not verified; Deferred semantics are summarised in the model as a fire-once cell (AlreadyCalledError = OErr, proved unreachable)",
-        "request payload bytes are outside the model (a request is identified by correlation id and handle); sendString/transport.write are assumed not to raise, so brokerclient.py:370-373 is not modelled; that path is exercised on the real code by one fixed probe (a str payload: entry dropped, Deferred fails once, id free, close() works), nothing more",
-        "user-supplied code that raises (a retryPolicy raising inside ebConnect leaves self.connector a fired Deferred and the client never reconnects) is outside the model and not generated",
+        "request payload bytes are outside the model (a request is identified by correlation id and handle); a write that raises inside _sendRequest (brokerclient.py:370-373) is modelled by Model/BrokerClientWrite.v as a per-request oracle (driven with a str payload, on a live connection and during the queue flush; C06_exactly_once_write_failure, C06_write_failure_local, C10_write_failure_*); a transport whose write raises only SOMETIMES for the same request is not generated",
+        "user callbacks/errbacks that RAISE are driven (Twisted turns the exception into a failure of the Deferred's chain; the model has no event for it and the traces must still agree); a retryPolicy or endpoint factory that raises (ebConnect then leaves self.connector a fired Deferred and the client never reconnects) is outside the model and not generated",
         "user callbacks/errbacks that re-enter the client synchronously (cancel / makeRequest / disconnect / close, on success and on failure): inside the two loops that fire Deferreds (_sendQueued, close()) they are INSIDE the extended model Model/BrokerClientHook.v (IConnOk / IClose interleavings; C06_exactly_once_reentrant, C06_nothing_after_fired_reentrant) and its correspondence (tree_part, hook enumerations); in tail positions the driver inserts the call as the next event and checks equality on the real code; that this sequential history equals user code running inside handleResponse is PROVED for reply callbacks (C06_tail_reentrancy over the transcription Model/BrokerClientTail.v), and holds by Twisted's structure for cancel() / makeRequest on a closed client (no afkak statement follows the firing). Where user code runs inside close()'s loop the outcome depends on the order in which close() fails the requests, which the property does not fix: such a case is compared with the model only if no tombstone existed and the implementation failed newest first (differences in the other cases are counted, not reported), and is always subject to the order-independent monitors. Endpoints whose connect() completes synchronously are checked by C10 (sync_connect_part)",
         "the paused flag of IntNStringReceiver and the `recvd` compatibility attribute are not modelled (afkak never sets them)",
         "events the environment cannot produce (no transport / attempt / Deferred to act on) are no-ops in the model and CANNOT be applied to the implementation (there is no object to act on); the generator emits them only to exercise the model's enabledness. The one exception is a timer event with no timer armed: the driver then lets an hour of virtual time pass and requires that nothing happens. Everything physically possible is applied: cancel of an already fired Deferred, makeRequest after close(), data after loseConnection() was requested, a second close()",
@@ -195,6 +198,8 @@ def replay(rp):
         return L.replay_hook(rp)
     if op == "bc-tree":
         return L.replay_tree(rp)
+    if op == "bc-write":
+        return L.replay_write(rp)
     if op == "send-raises":
         sr = L.probe_send_raises()
         print("probe now:", sr or "as expected")
